@@ -35,7 +35,7 @@ PLATFORMS: tuple[Platform, ...] = ("linux/amd64", "linux/arm64")
 # conversion is purely structural.
 _PEP440_LABELS = {"a", "b", "rc"}
 
-_SEMVER_PRERELEASE_RE = re.compile(r"^(\d+\.\d+\.\d+)-([a-zA-Z]+)\.(\d+)$")
+_SEMVER_PRERELEASE_RE = re.compile(r"^(\d+(?:\.\d+)*)-([a-zA-Z]+)\.(\d+)$")
 
 
 def run_command(
